@@ -191,6 +191,39 @@ func checkLookupBody(p *Prog, r *Report, clause string) {
 				}
 				return a.Op == "param" && strings.HasPrefix(a.Name, idPrefix) && b.Contains(func(x *Term) bool { return x.Op == "param" && !strings.HasPrefix(x.Name, idPrefix) })
 			})
+			// source rule: a dedicated (embedded) method is returned as it is; the document's top-level method list is consulted
+			// only for reference-type relationships
+			if name == "VerificationMethodFrom" {
+				rt := o.Of(ret.Results[0])
+				F := fa.At(ret.Block())
+				var ded *Formula
+				for _, a := range F.Atoms() {
+					if a.Term != nil && a.Term.Op == "eq" {
+						x, y := a.Term.Args[0], a.Term.Args[1]
+						if y.Op == "const" {
+							x, y = y, x
+						}
+						if x.Op == "const" && x.Name == "nil" && y.Op == "call" && strings.HasSuffix(y.Name, "VerificationRelationship).GetVerificationMethod") {
+							ded = fNot(a) // dedicated  <=>  GetVerificationMethod() != nil
+						}
+					}
+				}
+				isEmbedded := rt.Op == "deref" && rt.Args[0].Op == "call" && strings.HasSuffix(rt.Args[0].Name, "VerificationRelationship).GetVerificationMethod")
+				byID := rt.Contains(func(x *Term) bool { return x.Op == "call" && strings.HasSuffix(x.Name, "DIDDocument).VerificationMethodByID") })
+				okSrc := false
+				whySrc := "returned method " + rt.String() + " is neither the relationship's embedded method nor a by-id lookup"
+				switch {
+				case isEmbedded:
+					okSrc = ded != nil && Entails(F, ded)
+					whySrc = "embedded method returned on a path where the relationship is not known to carry one"
+				case byID:
+					okSrc = ded != nil && Entails(F, fNot(ded))
+					whySrc = "the document's top-level verificationMethod list is consulted for a relationship that is not known to be a plain reference: an embedded authentication method can be shadowed by a same-id top-level method that is not listed under authentication"
+				}
+				r.Check(okSrc, kp("GUARD", fmt.Sprintf("(%s).%s#return%d#method-source", didTypesPkg+".DIDDocument", name, i)),
+					"the method found for a relationship is the relationship's own embedded method when it has one, and the referenced top-level method only when it is a reference", site,
+					"source matches the relationship kind", whySrc)
+			}
 			r.Check(ok, kp("GUARD", fmt.Sprintf("(%s).%s#return%d#id-matches", didTypesPkg+".DIDDocument", name, i)),
 				"a key is reported as found only under the fact (method id of an element of the given relationships/methods) == requested id", site, w,
 				"a positive result can be returned for a method whose id was not compared with the requested id")
